@@ -41,7 +41,7 @@ def run_task(prog, tid, params, tier):
         # strings of at most 5 (quick) / 16 (thorough) symbolic bytes: the observers walk them byte by byte and fork on each
         cap = 5 if tier == 'quick' else 16
         shapes = [sh for sh in shapes if all(n <= cap for n in sh.get('strs', ()))]
-        shapes = shapes[:4 if tier == 'quick' else 8]
+        shapes = VG.pick(shapes, 4 if tier == 'quick' else 8)
     for shape in shapes:
         stats = {}
         done = [0]
